@@ -1514,7 +1514,8 @@ MANIFEST = {
                   'the shared-table guard is a consequence of equal sharing) and composed end to end '
                   '(C15_tabor_compile_commutes: TaborProgram of the updated program = update_volatile_parameters on '
                   'TaborProgram of the program, single and advanced mode, under no warning + same decisions + same '
-                  'sharing; refuted without the sharing hypothesis).  make_compatible is modelled in Coq '
+                  'sharing; refuted without the sharing hypothesis; in SINGLE sequence mode unconditionally, '
+                  'C15_tabor_single_mode).  make_compatible is modelled in Coq '
                   '(_is_compatible, _make_compatible, to_waveform; the code as it is and with the prepared repair) and '
                   'proved to commute with updates under same decisions + "no volatile count inside a concatenated '
                   'waveform" (refuted without: known finding; with the repair the guard is "no warning").  '
